@@ -2273,6 +2273,13 @@ restore_entry(struct archive_write_disk *a)
 			if ((a->mode != a->st.st_mode)
 			    && (a->todo & TODO_MODE_FORCE))
 				a->deferred |= (a->todo & TODO_MODE);
+			/*
+			 * Restoring the children will touch this dir just
+			 * as it touches a newly created one, so its times
+			 * must be deferred as well.
+			 */
+			a->deferred |= (a->todo & TODO_TIMES);
+			a->todo &= ~TODO_TIMES;
 			/* Ownership doesn't need deferred fixup. */
 			en = 0; /* Forget the EEXIST. */
 		}
